@@ -79,6 +79,62 @@ def check(ctx):
                           "from stale inputs and marked up to date", not direct_updates,
            detail=f"direct node updates at lines {[s_.lineno for s_ in direct_updates]}",
            stmt="direct node.update() in simulate")
+    # simulate leaves the model's own settings alone: the draws go through the value
+    # setters under whatever auto-update setting the user chose (switching it off "for
+    # the loop" leaves the totals stale unless a full update is guaranteed afterwards)
+    cfg_writes = [st for st in ast.walk(sim.node) if isinstance(st, (ast.Assign, ast.AugAssign))
+                  for t in (st.targets if isinstance(st, ast.Assign) else [st.target])
+                  if isinstance(t, ast.Attribute) and isinstance(t.value, ast.Name)
+                  and t.value.id == "self"]
+    settled = not cfg_writes
+    if cfg_writes and all(ast.unparse(t) == "self.auto_update" for st in cfg_writes
+                          for t in (st.targets if isinstance(st, ast.Assign) else [st.target])):
+        # ... unless a full update is guaranteed afterwards whenever the user had it on:
+        # `saved = self.auto_update` ... loop ... `self.update()` under no condition or
+        # under exactly `saved`
+        saved = {st.targets[0].id for st in ast.walk(sim.node) if isinstance(st, ast.Assign)
+                 and len(st.targets) == 1 and isinstance(st.targets[0], ast.Name)
+                 and ast.unparse(st.value) == "self.auto_update"}
+        loops_ = [x for x in ast.walk(sim.node) if isinstance(x, ast.For)]
+        last = max((x.end_lineno or x.lineno) for x in loops_) if loops_ else 0
+        restores = [st for st in cfg_writes if isinstance(st, ast.Assign)
+                    and isinstance(st.value, ast.Name) and st.value.id in saved]
+        par = {}
+        for x in ast.walk(sim.node):
+            for ch in ast.iter_child_nodes(x):
+                par[ch] = x
+        for x in ast.walk(sim.node):
+            if not (isinstance(x, ast.Call) and ast.unparse(x) == "self.update()"
+                    and x.lineno > last):
+                continue
+            # the conditions the call sits under (try / finally blocks do not count)
+            tests, y = [], x
+            while y in par and par[y] is not sim.node:
+                y = par[y]
+                if isinstance(y, ast.If):
+                    tests.append(y)
+                elif isinstance(y, (ast.For, ast.While)):
+                    tests.append(None)
+            ok_t = True
+            for y in tests:
+                if y is None:
+                    ok_t = False
+                elif isinstance(y.test, ast.Name) and y.test.id in saved:
+                    continue                      # `if saved:`
+                elif ast.unparse(y.test) == "self.auto_update" and any(
+                        r_.lineno < y.lineno for r_ in restores):
+                    continue                      # `if self.auto_update:` after the restore
+                else:
+                    ok_t = False
+            if ok_t:
+                settled = True
+    ctx.ob("C17.R1", sim, "simulate assigns no attribute of the model itself (in particular "
+                          "not auto_update) -- or, if it switches auto-update off for the loop, "
+                          "a full update is guaranteed afterwards whenever the user had it on",
+           settled,
+           detail=f"writes at lines {[s_.lineno for s_ in cfg_writes]}: "
+                  f"{[ast.unparse(s_)[:50] for s_ in cfg_writes[:2]]}",
+           stmt="simulate writes " + "; ".join(ast.unparse(s_)[:60] for s_ in cfg_writes[:2]))
     if not reads or len(writes) < 1:
         ctx.ob("C17.R1", sim, "the simulation loop initialises each distribution and assigns "
                               "the draw through a value setter", False, unproven=True,
@@ -253,9 +309,9 @@ def check(ctx):
                            "nodes)", ok_n, detail=short(sn or ()))
 
     # ---- shared mechanisms: the neighbour's rules run as obligations of this property
-    ctx.include("C01", "C17.R3", only=['C01.R6', 'C01.R4'])
+    ctx.include("C01", "C17.R3", only=['C01.R6', 'C01.R4', 'C01.R1'])
     ctx.include("C14", "C17.R3", only=['C14.R1'])
-    ctx.rule("R3", "shared mechanisms, run as obligations of this property: the refresh before each draw is a targeted update that really runs (C01.R6); the value setter each draw is assigned through flags every dependant and, with auto-update on, runs the full sweep in topological order (C01.R4); a transformed variable is the bijector image of the new variable, so it is simulated through it (C14.R1).")
+    ctx.rule("R3", "shared mechanisms, run as obligations of this property: the distribution a draw comes from is built from the node's current inputs, nothing kept from an earlier update (C01.R1); the refresh before each draw is a targeted update that really runs (C01.R6); the value setter each draw is assigned through flags every dependant and, with auto-update on, runs the full sweep in topological order (C01.R4); a transformed variable is the bijector image of the new variable, so it is simulated through it (C14.R1).")
 
 
 def _covers_inputs(call: ast.Call, tvars=None) -> bool:
